@@ -34,6 +34,9 @@ def check(ctx):
     from ..sigrules import signatures as _signatures
 
     _signatures(ctx, "R-SIG", classes=('skmatter.preprocessing.KernelNormalizer', 'skmatter.preprocessing.SparseKernelCenterer'))
+    # readers (transform / predict / score ...) leave the fitted state untouched and keep no result buffer on the estimator
+    protocols.reader_state_obligations(ctx, "R-STATE", "KernelNormalizer", ctx.P.cls("skmatter.preprocessing.KernelNormalizer"))
+    protocols.reader_state_obligations(ctx, "R-STATE", "SparseKernelCenterer", ctx.P.cls("skmatter.preprocessing.SparseKernelCenterer"))
     P = ctx.P
     N = ctx.normalizer(vector_syms=("w",))
     cls = P.cls(KN)
